@@ -2,7 +2,7 @@
 (* M level of the AST rewrite for the other statements that bind a variable or end an     *)
 (* activation (transform.PteraTransformer: visit_AugAssign, visit_AnnAssign, visit_NamedExpr, *)
 (* visit_For + generate_interactions, visit_With, visit_ExceptHandler, visit_Import(From),      *)
-(* visit_Return; there is no rewrite of the end of the body), in the action vocabulary of  *)
+(* visit_Return, and the instrumented `return None` appended to the body), in the action vocabulary of  *)
 (* Xform.tla, plus                                                                          *)
 (*     next              a loop iteration begins: the iteration value <<"V">> arrives        *)
 (*     aug               the in-place / binary operation of an augmented assignment          *)
@@ -51,7 +51,7 @@ After(I, v, src) == IF Instr(I, v) THEN << <<"interact", v, "none", src>>, <<"re
 \* generate_interactions(target): names, tuples / lists of targets, a starred name; stores into objects (attribute,
 \* subscript) are not variable bindings.  LoopTargets = "names-only" is the tree before fix d4bbee3: anything but
 \* names and tuples of names raised NotImplementedError and the whole function could not be instrumented.
-CONSTANTS LoopTargetsSupported, WithRewritten
+CONSTANTS LoopTargetsSupported, WithRewritten, FallOffRewritten
 RECURSIVE GenI(_, _, _)
 GenI(t, src, I) ==
   CASE t.t = "name" -> After(I, t.v, src)
@@ -72,7 +72,8 @@ X2(st, I) ==
     [] st.s = "with" -> Py2(st) \o (IF WithRewritten /\ st.t # "" THEN After(I, st.t, <<"W">>) ELSE <<>>)   \* visit_With since fix 2ab3d3a
     [] st.s = "import" -> Py2(st) \o After(I, st.name, <<"M">>)
     [] st.s = "return" -> PyEval(st.e) \o (IF Instr(I, "#value") THEN << <<"interact", "#value", "none", <<"V">>>> >> ELSE <<>>) \o << <<"return", <<"V">>>> >>
-    [] st.s = "falloff" -> Py2(st)                                         \* nothing is appended to the body
+    [] st.s = "falloff" ->                                                 \* since fix a77403d the body ends with an instrumented `return None`
+         (IF FallOffRewritten /\ Instr(I, "#value") THEN << <<"interact", "#value", "none", <<"None">>>> >> ELSE <<>>) \o Py2(st)
 
 \* ------------------------------------------------------------------ A level
 Erase2(acts) == SelectSeq(acts, LAMBDA a : a[1] \notin {"interact", "rebind"})
